@@ -265,7 +265,9 @@ func sortedKeys[V any](m map[string]V) []string {
 
 // onlyAtIO is the env-thread reduction: a chain change commutes with everything but RPC exchanges
 // (and is free at step boundaries anyway).
-func onlyAtIO(l string) bool { return strings.HasPrefix(l, "rpc:") || strings.HasPrefix(l, "boundary:") }
+func onlyAtIO(l string) bool {
+	return strings.HasPrefix(l, "rpc:") || strings.HasPrefix(l, "boundary:") || l == "step"
+}
 
 // cpuSeconds is the CPU time consumed by this worker process (development statistics only; never an oracle).
 func cpuSeconds() float64 {
